@@ -187,7 +187,7 @@ def decimal_arg(
 
         try:
             return Decimal(val)
-        except ValueError as err:
+        except (ValueError, ArithmeticError) as err:
             if default is not None:
                 return default
             raise FilterArgumentError(
